@@ -16,12 +16,12 @@ in the vocabulary of `GnoVerif/Model/C16Spec.lean`:
 
 All theorems hold for every history: any interleaving of block-time changes (also backwards),
 funding, and transactions with any number of messages and signers, failing or not.
-Helper lemmas: `GnoVerif/Proofs/C16{Coins,Spend,World,Tx,Keep,Hist,Final}.lean`.
+Helper lemmas: `GnoVerif/Proofs/C16{Coins,Spend,World,Tx,Keep,Hist,Final,Now}.lean`.
 What is NOT a theorem here (see props/C16.json): that the model is the code (differential
 correspondence against the real gno.land application on every run) and that no other code path
 moves coins out of an account (extracted call-site facts + the harness's balance monitor).
 -/
-import GnoVerif.Proofs.C16Final
+import GnoVerif.Proofs.C16Now
 namespace GnoVerif.C16
 
 /-! ### concrete witnesses used by the `example`s (evaluated by the kernel, `decide`) -/
@@ -168,6 +168,29 @@ example :
     deadAt (step exWorld (.time 1000499)) 0 0 = false ∧
     deadAt (step exWorld (.time 1000500)) 0 0 = true ∧ deadAt exWorld 0 7 = true := by
   decide
+
+/-- … and stay that way: along every run whose block times do not go back and that carries no
+    new `MsgCreateSession` for the key, a session that is absent or expired stays dead, so every
+    transaction of the run that is signed with its key is refused without any effect. -/
+theorem dead_session_stays_dead (w : World) (ops : List Op) (m k : Nat)
+    (hd : deadAt w m k = true) (hnc : NoCreate m k ops) (hmono : Monotone w ops) :
+    deadAt (run w ops) m k = true :=
+  run_dead ops w hd hnc hmono
+
+set_option maxRecDepth 100000 in
+/-- non-vacuous: expired at 1000500; two later blocks with a session-signed tx and a funding -/
+example :
+    let w := step exWorld (.time 1000500)
+    let ops : List Op := [.tx { auth := [(0, 0)], fee := ("ugnot", 1), msgs := [.send 0 (.a 0) [("ugnot", 1)]] },
+      .time 1000501, .fund (.m 0) [("ugnot", 5)]]
+    deadAt w 0 0 = true ∧ NoCreate 0 0 ops ∧ samePeriodB 0 0 1000000 w ops = true ∧
+    (run w ops).bal (.m 0) "ugnot" = w.bal (.m 0) "ugnot" + 5 := by
+  decide
+
+set_option maxRecDepth 100000 in
+example : deadAt (run (step exWorld (.time 1000500))
+    [.tx { auth := [(0, 0)], fee := ("ugnot", 1), msgs := [.send 0 (.a 0) [("ugnot", 1)]] }, .time 1000501]) 0 0 = true :=
+  dead_session_stays_dead _ _ 0 0 (by decide) (by decide) ⟨by decide, by decide, trivial⟩
 
 /-- `MsgRevokeSession` / `MsgRevokeAllSessions`, when they succeed, leave no record behind. -/
 theorem revoke_removes_session (auth : List (Nat × Nat)) (w w' : World) (m k : Nat) :
